@@ -85,6 +85,11 @@ Insertions(fn, b, typ) ==
   THEN LET n == b[BlockLen + 2] * 256 + b[BlockLen + 3] IN
        << [kind |-> "insert", at |-> BlockLen + 3 + n, lenoff |-> BlockLen + 1, newlen |-> n + 4, bytes |-> << 222, 173, 190, 239 >>] >>
   ELSE << >>
+\* legacy LeaseSet: the structure carries a signing_key field of its own (the revocation key) next to the identity's key
+RevocationForgery(fn, b, st) ==
+  IF fn = "ReadLeaseSet" THEN LET r == RefLeaseSet(b) IN
+       IF r.ok /\ SigPubLen(st) > 0 THEN << [kind |-> "forge_with_revocation_key", off |-> r.spkOff, len |-> SigPubLen(st)] >> ELSE << >>
+  ELSE << >>
 ShiftSlots(sl, at, n) ==
   LET Sh(x) == IF x >= at THEN x + n ELSE x IN
   [sl EXCEPT !.sigoff = Sh(@), !.keyoff = Sh(@), !.osigoff = Sh(@), !.from = Sh(@), !.to = Sh(@)]
